@@ -291,7 +291,7 @@ func (opts GeneratorOptions) genFieldMask(t *rapid.T, msg protoreflect.Message) 
 	paths := rapid.SliceOfN(rapid.StringMatching("[a-z]+([.][a-z]+){0,2}"), 1, 5).Draw(t, "paths")
 	pathsField := msg.Descriptor().Fields().ByName(pathsName)
 	assert.Assert(t, pathsField != nil)
-	pathsList := msg.NewField(pathsField).List()
+	pathsList := msg.Mutable(pathsField).List()
 	for _, path := range paths {
 		pathsList.Append(protoreflect.ValueOfString(path))
 	}
